@@ -98,6 +98,43 @@ func (w *semverWorld) Check(c *core.Case) ([]core.Violation, bool) {
 			return []core.Violation{{Sig: "sort:out", What: fmt.Sprintf("Sort result %q differs from the specification", l), Case: c, Obs: concrete.IntsList(l)}}, true
 		}
 		return nil, true
+	case "modsort":
+		// module.Sort against the specification ModuleSort (path, then version up to a slash by precedence, then the rest)
+		var in struct{ List [][][]int }
+		json.Unmarshal(c.In, &in)
+		var exp struct {
+			Total bool
+			Out   [][][]int
+		}
+		json.Unmarshal(c.Exp, &exp)
+		mk := func(l [][][]int) []module.Version {
+			var out []module.Version
+			for _, e := range l {
+				out = append(out, module.Version{Path: concrete.Str(e[0]), Version: concrete.Str(e[1])})
+			}
+			return out
+		}
+		l := mk(in.List)
+		orig := append([]module.Version(nil), l...)
+		module.Sort(l)
+		count := map[module.Version]int{}
+		for _, e := range orig {
+			count[e]++
+		}
+		for _, e := range l {
+			count[e]--
+		}
+		for _, n := range count {
+			if n != 0 {
+				return []core.Violation{{Sig: "modsort:permutation", What: fmt.Sprintf("module.Sort(%v) = %v is not a permutation of its input", orig, l), Case: c}}, true
+			}
+		}
+		if exp.Total {
+			if want := mk(exp.Out); !core.Eq(fmt.Sprint(l), fmt.Sprint(want)) {
+				return []core.Violation{{Sig: "modsort:order", What: fmt.Sprintf("module.Sort(%v) = %v; by path, then version precedence, then file suffix it is %v", orig, l, want), Case: c}}, true
+			}
+		}
+		return nil, exp.Total && len(l) > 1
 	case "rank":
 		var in struct{ S []int }
 		json.Unmarshal(c.In, &in)
